@@ -663,6 +663,7 @@ func Run(r *evid.Run) {
 	r.Sample(Case{Part: "cycle", Path: "interface holding pointer to itself"})
 	r.Bound("cycles: %d cyclic Go values, each marshaled 3 ways in a child process", len(cycles))
 	misuse(r)
+	coderStates(r)
 	c17.MarshalPolicingPanics(r, "c20") // user-code scripts (incl. nested delegation): no panic
 	// sweep
 	lens := views.ForTier(r.Tier).Minus(1)
